@@ -35,10 +35,16 @@ pub fn make_runtime() -> Vec<goast::Item> {
             name: "main".to_string(),
         }),
         Item::Import(ImportDecl {
-            specs: vec![ImportSpec {
-                alias: None,
-                path: "fmt".to_string(),
-            }],
+            specs: vec![
+                ImportSpec {
+                    alias: None,
+                    path: "fmt".to_string(),
+                },
+                ImportSpec {
+                    alias: None,
+                    path: "strings".to_string(),
+                },
+            ],
         }),
         Item::Fn(unit_to_string()),
         Item::Fn(bool_to_string()),
@@ -343,37 +349,64 @@ fn bool_to_json() -> goast::Fn {
 }
 
 fn json_escape_string() -> goast::Fn {
-    // Returns a JSON-escaped string with surrounding quotes
-    // Uses fmt.Sprintf("%q", s) which produces a Go string literal that is JSON-compatible
-    let fmt_ty = goty::GoType::TFunc {
-        params: vec![goty::GoType::TString, goty::GoType::TString],
+    // Returns s as a JSON string (RFC 8259 section 7), surrounding quotes included: `\` and `"` get
+    // a backslash, U+0000..U+001F become \u00XX, every other character is copied. (Go's %q is not
+    // JSON: it writes \a, \v, \x7f, \U000e0001.) The backslash is replaced first (innermost call),
+    // because every later replacement introduces one.
+    let s_var = || goast::Expr::Var {
+        name: "s".to_string(),
+        ty: goty::GoType::TString,
+    };
+    let str_lit = |value: String| goast::Expr::String {
+        value,
+        ty: goty::GoType::TString,
+    };
+    let replace_all_ty = goty::GoType::TFunc {
+        params: vec![
+            goty::GoType::TString,
+            goty::GoType::TString,
+            goty::GoType::TString,
+        ],
         ret_ty: Box::new(goty::GoType::TString),
     };
+
+    let mut replacements = vec![
+        ("\\".to_string(), "\\\\".to_string()),
+        ("\"".to_string(), "\\\"".to_string()),
+    ];
+    for code in 0u8..0x20 {
+        replacements.push(((code as char).to_string(), format!("\\u{:04x}", code)));
+    }
+
+    let escaped = replacements
+        .into_iter()
+        .fold(s_var(), |acc, (old, new)| goast::Expr::Call {
+            func: Box::new(goast::Expr::Var {
+                name: "strings.ReplaceAll".to_string(),
+                ty: replace_all_ty.clone(),
+            }),
+            args: vec![acc, str_lit(old), str_lit(new)],
+            ty: goty::GoType::TString,
+        });
+    let stmts = vec![goast::Stmt::Return {
+        expr: Some(goast::Expr::BinaryOp {
+            op: GoBinaryOp::Add,
+            lhs: Box::new(goast::Expr::BinaryOp {
+                op: GoBinaryOp::Add,
+                lhs: Box::new(str_lit("\"".to_string())),
+                rhs: Box::new(escaped),
+                ty: goty::GoType::TString,
+            }),
+            rhs: Box::new(str_lit("\"".to_string())),
+            ty: goty::GoType::TString,
+        }),
+    }];
+
     goast::Fn {
         name: "json_escape_string".to_string(),
         params: vec![("s".to_string(), goty::GoType::TString)],
         ret_ty: Some(goty::GoType::TString),
-        body: goast::Block {
-            stmts: vec![goast::Stmt::Return {
-                expr: Some(goast::Expr::Call {
-                    func: Box::new(goast::Expr::Var {
-                        name: "fmt.Sprintf".to_string(),
-                        ty: fmt_ty,
-                    }),
-                    args: vec![
-                        goast::Expr::String {
-                            value: "%q".to_string(),
-                            ty: goty::GoType::TString,
-                        },
-                        goast::Expr::Var {
-                            name: "s".to_string(),
-                            ty: goty::GoType::TString,
-                        },
-                    ],
-                    ty: goty::GoType::TString,
-                }),
-            }],
-        },
+        body: goast::Block { stmts },
     }
 }
 
